@@ -604,6 +604,41 @@ fn vk_c02_case_3() {
     std::mem::forget(cmd); std::mem::forget(shell); std::mem::forget(params);
 }
 
+//@proof {'props': ['C02'], 'tier': 'thorough', 'timeout': 1800, 'bounds': '2 case items with 2 patterns each (a|b), terminators symbolic, match outcomes symbolic', 'desc': 'case with alternatives: the patterns of an item are tested left to right and testing stops at the first match (later alternatives are not even expanded); an item runs iff one of its patterns matched (or it was fallen into)', 'uses': ['casec']}
+#[kani::proof]
+#[kani::unwind(5)]
+#[kani::stub(std::hash::RandomState::new, crate::vk_prelude::stub_random_state_new)]
+#[kani::stub(std::time::SystemTime::now, crate::vk_prelude::stub_now)]
+fn vk_c02_case_two_patterns() {
+    let (mut shell, params) = mk_shell(kani::any());
+    let t: [u8; 2] = [any_below(3), any_below(3)];
+    let mut cases = Vec::with_capacity(2);
+    for i in 0..2 {
+        let mut pats = Vec::with_capacity(2); pats.push(ast::Word::new("")); pats.push(ast::Word::new(""));
+        cases.push(ast::CaseItem { patterns: pats, cmd: Some(clist()), post_action: post(t[i]), loc: None });
+    }
+    let cmd = ast::CaseClauseCommand { value: ast::Word::new(""), cases, loc: Default::default() };
+    let idof = |i: usize| -> usize { match &cmd.cases[i].cmd { Some(c) => c.vk_id(), None => 100 + i } };
+    let mut o = Kids::new([idof(0), idof(1), 2, 3, 4]);
+    let r = vk_ok(t_case(&cmd, &mut shell, &params, &mut o));
+    // reference: item i is taken iff forced or any of its (up to 2) patterns matches; pattern oracle answers are consumed in order
+    let mut p = 0usize; let mut k = 0usize; let mut force = false; let mut done = false; let mut ran = [false; 2];
+    let mut i = 0;
+    while i < 2 {
+        if !done {
+            let take = if force { force = false; true } else { let m0 = o.pat[p]; p += 1; if m0 { true } else { let m1 = o.pat[p]; p += 1; m1 } };
+            if take { ran[i] = true; let f = o.flows[k]; k += 1; if f != 0 || t[i] == 0 { done = true; } else if t[i] == 1 { force = true; } }
+        }
+        i += 1;
+    }
+    kani::cover!(o.pat[0] && ran[0] && p == 1, "first_alternative_matches_second_not_tested");
+    kani::cover!(!o.pat[0] && o.pat[1] && ran[0], "second_alternative_matches");
+    assert!(o.pats == p, "C02.case.alternatives_tested_left_to_right_until_first_match");
+    assert!(o.n == k, "C02.case.bodies_run");
+    if k >= 1 { assert!(st(&r) == o.codes[k - 1] && flow_tag(&r.next_control_flow) == o.flows[k - 1], "C02.case.result_is_last_arm_run"); } else { assert!(st(&r) == 0 && r.is_normal_flow(), "C02.case.no_match_is_zero"); }
+    std::mem::forget(cmd); std::mem::forget(shell); std::mem::forget(params);
+}
+
 // ================================================================ subshell
 //@proof {'props': ['C02', 'C03'], 'tier': 'quick', 'timeout': 900, 'bounds': 'subshell body result arbitrary (status, flow) or an error', 'render': 'subshell', 'desc': '( list ): runs in a clone; whatever flow the body requests (break, return, exit) the parent continues normally with the body status; body inherits the errexit flag; an error inside is reported and becomes a status', 'uses': ['subshell']}
 #[kani::proof]
